@@ -437,10 +437,55 @@ class _StmtSynonyms(ast.NodeTransformer):
         return n
 
 
+class _MatchToIf(ast.NodeTransformer):
+    """match S: case K(): A  case "c": B  case _ / case name: C     (S a plain name / path; class patterns without sub-patterns, constants,
+    a final wildcard or capture)   ->   if isinstance(S, K): A  elif S == "c": B  else: [name = S;] C
+    so that every pass that walks if / else arms sees the case bodies.  Other match statements are left alone."""
+    def visit_Match(self, n):
+        self.generic_visit(n)
+        subj = n.subject
+        root = subj
+        while isinstance(root, ast.Attribute):
+            root = root.value
+        if not isinstance(root, ast.Name):
+            return n
+        arms = []
+        for i, c in enumerate(n.cases):
+            p = c.pattern
+            if c.guard is not None:
+                return n
+            if isinstance(p, ast.MatchClass) and not p.patterns and not p.kwd_patterns:
+                test = ast.Call(func=ast.Name(id="isinstance", ctx=ast.Load()), args=[copy.deepcopy(subj), p.cls], keywords=[])
+                arms.append((test, c.body, None))
+            elif isinstance(p, ast.MatchValue) and isinstance(p.value, ast.Constant):
+                arms.append((ast.Compare(left=copy.deepcopy(subj), ops=[ast.Eq()], comparators=[p.value]), c.body, None))
+            elif isinstance(p, ast.MatchAs) and p.pattern is None and i == len(n.cases) - 1:
+                arms.append((None, c.body, p.name))
+            else:
+                return n
+        # a subject re-bound inside a case body would change what later tests see: they are evaluated up front only in `match`
+        stored = {x.id for c in n.cases for st in c.body for x in ast.walk(st) if isinstance(x, ast.Name) and isinstance(x.ctx, ast.Store)}
+        if root.id in stored:
+            return n
+        node = None
+        for test, body, cap in reversed(arms):
+            if test is None:
+                pre = [ast.Assign(targets=[ast.Name(id=cap, ctx=ast.Store())], value=copy.deepcopy(subj), lineno=n.lineno, col_offset=0)] if cap else []
+                node = pre + list(body)
+            else:
+                node = [ast.If(test=test, body=list(body), orelse=node or [], lineno=n.lineno, col_offset=0)]
+        if node is None:
+            return n
+        for x in node:
+            ast.copy_location(x, n)
+        return node
+
+
 def apply_synonyms(repo):
     n = 0
     for f in repo.funcs.values():
         before = ast.dump(f.node)
+        f.node = _MatchToIf().visit(f.node)
         f.node = _Synonyms().visit(f.node)
         f.node = _StmtSynonyms().visit(f.node)
         f.node = _SliceZero().visit(f.node)
